@@ -31,6 +31,7 @@ CONSTANTS
  InitTerms <- {init}
  Maps <- {maps}
  Pairs <- {pairs}
+ SubsMaps <- NoMaps
  Ctxs <- {ctxs}
  VaryArgs <- {"PoolVaryArgs" if vary else "NoTerms"}
  VaryAttrs <- NoLabels
